@@ -286,7 +286,7 @@ func (m *aiMachine) call(h *ssa.Function, args []aiVal, asg map[string]bool, dep
 			case *ssa.Return:
 				var r aiVal
 				if len(t.Results) > 0 {
-					r = m.eval(e, t.Results[0])
+					r = m.eval(e, unspill(t, 0))
 				}
 				if !seenRes[r.String()] {
 					seenRes[r.String()] = true
